@@ -67,6 +67,8 @@ def context_specs():
     # a real scheme whose hashes start with a marker character, listed before / after the disabled hasher
     out.append({"name": "mysql41+unix_disabled", "schemes": ["mysql41", "sha256_crypt", "unix_disabled"], "marker": None})
     out.append({"name": "unix_disabled+mysql41", "schemes": ["unix_disabled", "mysql41", "sha256_crypt"], "marker": None})
+    # ... and the disabled hasher's own marker IS that character
+    out.append({"name": "mysql41+unix_disabled:marker=star", "schemes": ["mysql41", "sha256_crypt", "unix_disabled"], "marker": "*"})
     out.append({"name": "mysql41+django_disabled", "schemes": ["mysql41", "django_disabled"], "marker": None})
     # catch-all after the disabled hasher
     out.append({"name": "unix_disabled+plaintext", "schemes": ["sha256_crypt", "unix_disabled", "plaintext"], "marker": None})
@@ -391,6 +393,13 @@ def _step(w, ev):
         if not isinstance(d, str):
             out.append((f"C18|{comp}|disable:{srcc}:not_a_string", f"disable({arg!r}) returned {d!r}"))
             return out
+        if name == "disable" and src[0] == "normal" and d == s:
+            # the enabled hash came back as it went in: the account is NOT disabled.  Reported under the class of the
+            # SOURCE (a marker-led original is the recorded finding; any other hash is not), and the search goes on
+            # from what the implementation really holds -- an enabled hash -- instead of reporting every consequence
+            out.append((f"C18|{comp}|disable:{sc}:returned_unchanged",
+                        f"disable({arg!r}) returned its argument unchanged: the account is still enabled (is_enabled = {_call(lambda: ctx.is_enabled(d))[1]!r})"))
+            return out
         w.stored = d
         w.model = model_disable(spec, s if name == "disable" else None, src)
         out.extend(check_disabled_observations(w, f"after disable({arg!r}) -> {d!r}"))
@@ -654,6 +663,14 @@ def work(task):
             acc.violation(key, desc, {"ctx": spec, "init": {"label": "none", "value": None}, "history": []})
         return acc
     for label, init in task["inits"]:
+        if spec.get("marker") == "*" and "mysql41" in spec["schemes"] and isinstance(init, str) \
+                and _PREFIX["mysql41"].match("*" + init.lstrip("!*")):
+            # 40 hex digits that are NOT a hash of this context: stamped with this context's marker they ARE, to
+            # the letter, a mysql41 hash, and mysql41 is listed first -- an ambiguity of the configuration, not a
+            # decision the library could take otherwise (the context's own mysql41 hashes stay in: recorded finding)
+            if not label.endswith(":mysql41"):
+                acc.count("ambiguous_roots_skipped")
+                continue
         build = builder(spec, init)
         seen_cls = set()
 
